@@ -1,6 +1,7 @@
 """Property -> rules.  The explanation/assumption texts end up in the evidence files."""
 from .rules import dtype, evalnodes, executor, aggregates, eqfaith, compiler_rules as cr
 from .rules import cursor_rules as cu, library_rules as lib, state_rules as st, grammar_rules as gr
+from .rules import table_rules as tb, clause_rules as cl
 
 TRUSTED_ABSINT = [
     "Python/library semantics of operators, attributes, methods and whitelisted callables are obtained by applying "
@@ -257,6 +258,88 @@ PROPS = {
             "treated as execution-reachable",
             "TatSu, beancount and dateutil internals perform no shared writes (summarised, not analysed)"],
         'quick': [st.rule_shared, st.rule_tablecopy, st.rule_onceperrow, cu.rule_modconst],
+        'thorough': [],
+    },
+    'C11': {
+        'level': 'other',
+        'explanation': (
+            "For every column accessor of the entries and postings tables (39) the access paths rooted at the row context "
+            "that flow into the returned value, the keys it subscripts and the callables it applies are computed with "
+            "locals inlined and compared with the column's definition (tables/access_paths.json, confirmed by reading): a "
+            "swap of two same-typed attributes changes the path set (R-ACCESSPATH); accessor result types vs declared "
+            "dtypes and NULL/isinstance guards by abstract interpretation with rows typed from beancount's records "
+            "(R-DTYPE, R-TYPESAFE); row generators yield once per directive / per posting of every transaction, unfiltered, "
+            "bound to the loop variables (R-ROWGEN, loop bodies executed over the isinstance outcomes); typed tables "
+            "present the directive class of their name with columns derived from that very class, accessor reads the "
+            "record field, all tables registered, structure aliases consistent (R-TABLEFIELDS); meta()/entry_meta()/"
+            "any_meta() rewritten to the right dictionary lookups, open/close selection from the (open, close) pair "
+            "(R-METAREWRITE); getitem NULL-propagating (R-NULLSTRICT). Does not decide that beancount's getters and "
+            "convert functions compute what their names say."),
+        'assumptions': TRUSTED_STRUCT + TRUSTED_ABSINT[:2],
+        'quick': [tb.rule_accesspath, tb.rule_rowgen, tb.rule_tablefields, tb.rule_metarewrite, dtype.rule_dtype_columns,
+                  dtype.rule_typesafe_columns],
+        'thorough': [],
+    },
+    'C13': {
+        'level': 'other',
+        'explanation': (
+            "Decides the ordering and validation half: BeanTable.prepare() executed over all 12 combinations of the "
+            "clauses (OPEN absent/dated, CLOSE absent/dated/undated, CLEAR absent/present) must call summarize.open_opt, "
+            "close_opt, clear_opt in this order, each on the previous stage's result, with the date or None as the "
+            "statement says (R-CALLORDER); both row generators start from prepare(); the FROM expression is AND-ed into "
+            "the row condition after preparation (R-FROMAND); the CLOSE-before-OPEN guard exists and cannot itself raise "
+            "(R-GUARDS, R-GUARDSAFE); qualifiers are applied to a copy of the table (R-TABLECOPY); the shell's default "
+            "close date is applied exactly to SELECTs with a FROM expression lacking CLOSE (R-DEFAULTCLOSE, 12 cases). NOT "
+            "decided: balance preservation, carried-forward Equity postings, balancing of returned transactions - "
+            "properties of beancount.ops.summarize over ledger values."),
+        'assumptions': TRUSTED_STRUCT,
+        'quick': [cl.rule_callorder, executor.rule_fromand, cr.rule_guards, cr.rule_guard_typesafe, st.rule_tablecopy,
+                  cl.rule_defaultclose],
+        'thorough': [],
+    },
+    'C14': {
+        'level': 'other',
+        'explanation': (
+            "Every field of the BALANCES / JOURNAL / PRINT statement nodes flows into its expansion: the constructed "
+            "ast.Select takes targets (and GROUP BY / ORDER BY, resp. WHERE) from the parsed template and every remaining "
+            "clause from the statement, position by position against Select's field list; summary function and account "
+            "go into the template (R-FIELDFLOW); statement classes <-> compiler handlers <-> shell handlers exhaustive "
+            "(R-EXHAUSTIVE); PRINT collects row.entry for exactly the rows whose filter is absent or true, in order, and "
+            "hands the list unmodified to the printer (R-PRINTFILTER, 4 gate cases). The SELECT templates themselves are "
+            "string constants and deliberately not matched (a frozen fragment). NOT decided: that printed entries load "
+            "back equal (beancount's printer and parser)."),
+        'assumptions': TRUSTED_STRUCT,
+        'quick': [cl.rule_fieldflow, cr.rule_exhaustive, executor.rule_printfilter],
+        'thorough': [],
+    },
+    'C15': {
+        'level': 'other',
+        'explanation': (
+            "Validation half: PIVOT BY references are validated against the visible targets, the domain the executor "
+            "indexes (R-IDXBOUND, bounds executed for positions 0, 1, n, n+1, -1); the validation cannot itself raise for "
+            "a non-aggregate query (R-GUARDSAFE); name resolution, distinctness and second-column-grouped guards exist "
+            "(R-GUARDS). Reshaping half, structurally: remaining columns = all but the two pivots, keys sorted, naming "
+            "switch on the number of remaining columns, datatypes repeated per key, rows sorted and grouped by the first "
+            "column, block placement keys.index(k) * nother + 1, NULL fill (R-PIVOTSHAPE: the recognised skeleton; a "
+            "rewrite ends in ANALYSIS-ERROR, not a verdict). NOT decided: the index arithmetic for all key sets."),
+        'assumptions': TRUSTED_STRUCT,
+        'quick': [cr.rule_idxbound, cr.rule_guard_typesafe, cr.rule_guards, cl.rule_pivotshape],
+        'thorough': [],
+    },
+    'C19': {
+        'level': 'other',
+        'explanation': (
+            "Tables that must agree: every Settings field has a parser reachable by setstr's lookup order that rejects "
+            "invalid input, setstr parses before its single store, .set validates the name against the fields before "
+            "reflecting on it, every setting is consumed by a renderer keyword or read by the shell (R-SETTINGS); every "
+            "command-line option is read, wired to the shell parameter of its meaning and has its effect there "
+            "(R-OPTUSED); the command dispatcher executed over its 8 cases (dot prefix x command defined x legacy name): "
+            "dot-commands never reach execute(), other lines do unless legacy, legacy names disjoint from statement "
+            "keywords (R-DISPATCH); default close date for named queries (R-DEFAULTCLOSE); statement handlers exhaustive "
+            "(R-EXHAUSTIVE). Does not decide byte equality of shell output with the renderer (the same function is "
+            "called), pager behaviour or history."),
+        'assumptions': TRUSTED_STRUCT,
+        'quick': [cl.rule_settings, cl.rule_optused, cl.rule_dispatch, cl.rule_defaultclose, cr.rule_exhaustive],
         'thorough': [],
     },
 }
